@@ -62,6 +62,7 @@ def units(ctx):
     for i in range(len(_al3(ctx))):
         yield ("triples", i)
     yield from hist.hist_units()
+    yield ("long", 0)
     if ctx["tier"] != "quick":
         for t1 in range(0, 31):
             yield ("ticks", t1)
@@ -81,6 +82,14 @@ def gen_cases(unit, ctx):
             yield {"seed": unit[1], "build": unit[2], "hist": h}
         return
     kind, i = unit
+    if kind == "long":
+        p = ctx["p"] if ctx["p"] <= 100 else 100
+        for n in (16, 48, 120):
+            for step in (5, 37):
+                ns = [(o, l, pp, 0, v) for (o, l, pp, cc, v) in lib.long_desc(n, p, (0,), step)]
+                yield {"seqs": [S(ns, [("ts", 0, 3, 4), ("ks", step * n // 2, "Gb"), ("ts", step * n, 7, 8)])]}
+                yield {"seqs": [S(ns[0::2], [("ks", 0, "A")]), S(ns[1::2], [("ts", step * 3, 5, 4)]), S([], [("ts", step * n - 1, 2, 2)])]}
+        return
     if kind == "ticks":
         # thorough: a time signature at tick i and a key signature / second time signature at EVERY lattice tick
         p = ctx["p"]
